@@ -53,7 +53,8 @@ def run(ctx):
     rng = ctx.rng
     ctx.rule = ("the C03 generator (aggregate x 0-3 dims x fact form/columns/dtype x weights x policy x xcube dtype x explicit/inferred "
                 "shape, hidden values NaN/inf/garbage, plus boundary-extent, zero-dimension, weight-spread (2**20..2**40 next to 0.25..7, exact) "
-                "and decimal-weights (0.9, 1.2 ...; tolerance, judged by the oracle and the cross-format comparison only) streams), every call repeated under the "
+                "and decimal-weights (0.9, 1.2 ...; tolerance, judged by the oracle and the cross-format comparison only) streams, a scale stream (N in 30..120 rows, lopsided dimensions) and a many-columns case, sent to Coq only while the "
+                "literal stays small, else oracle-only (counted separately)), every call repeated under the "
                 "six report formats NaN, (0,False), (7,False), (-3,False), (2.5,False), plain 0 on both cube types; valid_count + plain + "
                 "propagation is excluded; a case = one (call, format) literal; non-trivial when the cube has a cell with rows of which "
                 "some but not all are missing (the any/all distinction) or a cell whose valid weights sum to zero")
@@ -83,12 +84,12 @@ def run(ctx):
         outs = {}
         S.count("stream:" + tag)
         S.count("kind:" + c["kind"])
-        mixed = len(c["exts"]) <= 3 and (c.get("boundary") is None) and mixed_cells(c)
+        mixed = len(c["exts"]) <= 3 and (c.get("boundary") is None) and not c.get("many_columns") and mixed_cells(c)
         n_mixed += mixed
         for fmt in formats_of(c):
             S.count("format:" + "/".join(str(x) for x in fmt))
             n0 = len(S.lits)
-            rc, rx = S.call(c, fmt, dims=dims, tag=tag)
+            rc, rx = S.call(c, fmt, dims=dims, tag=tag, to_coq=ca.literal_is_small(c))
             if mixed and len(S.lits) > n0:
                 ctx.nontrivial.add(S.lits[-1])
             for w, res in (("c", rc), ("x", rx)):
@@ -120,9 +121,14 @@ def run(ctx):
     for i in range(1500 if thorough else 110):
         one(ca.decimal_case(rng, absent=(i % 2 == 0)), "decimal-weights")
 
+    for i in range(400 if thorough else 40):
+        one(ca.scale_case(rng, decimal=(i % 3 == 2)), "scale")
+    for i in range(10 if thorough else 1):
+        one(ca.many_columns_case(rng), "many-columns")
+    ctx.coverage["oracle_only_calls"] = S.oracle_only
     ctx.coverage.update({"real_calls": S.calls, "calls_compared_in_coq": len(S.lits), "cubes_with_an_any_vs_all_cell": n_mixed,
                          "distribution": dict(sorted(S.dist.items()))})
-    ctx.evaluations = S.calls // 2
+    ctx.evaluations = len(S.lits) + S.oracle_only
     res = core.run_cases("c04", ca.PRELUDE, S.lits, ca.CASE_TYPE, ca.CHECK_EXPR, ca.EXPLAIN_EXPR,
                          shard_size=2000 if thorough else 150)
     ca.conclude(ctx, "C04", pr, S, res, THEOREMS, HOW)
